@@ -2,12 +2,16 @@ use crate::framework::Scenario;
 
 pub mod c11_framing;
 pub mod c15_handshake;
+pub mod nm_family;
 pub mod subs_family;
 
 pub fn all() -> Vec<Box<dyn Scenario>> {
     let mut v: Vec<Box<dyn Scenario>> = vec![Box::new(c11_framing::C11), Box::new(c15_handshake::C15)];
     for id in ["C21", "C22", "C24", "C25", "C26", "C27", "C40"] {
         v.push(Box::new(subs_family::Subs { id }));
+    }
+    for id in ["C28", "C29", "C34"] {
+        v.push(Box::new(nm_family::Nm { id }));
     }
     v
 }
